@@ -8,13 +8,21 @@ output (which diagram, under which geometry / which grid arguments) compared wit
 (driver ops `imgT.hist`, `lsc.hist`).  Imager histories of this stream are dyadic with power-of-two pixel sizes,
 so the code's float arithmetic is exact and the comparison is exact (rounding is C12's business).
 [T]: the laws themselves on the real code with arbitrary floats: fit;transform == fit_transform, transform twice
-equal with `__dict__` unchanged, collections map element-wise in order, refits forget — also when the refit runs on
+equal with the public and fitted attributes unchanged (FITTED below; a new private attribute such as a cache is not a
+change of the fitted state), collections map element-wise in order, refits forget — also when the refit runs on
 `sklearn.base.clone(obj)`, on the clone of a `Pipeline` holding the object, or after `set_params(**get_params())`.
+"Refits forget" is applied as stated: the result of a fit may depend on the data of that fit and on what the user fixed
+explicitly, never on earlier fits.  For the imager that is: the same user assignments without the earlier fits, then
+fit(X), give the same public state and images; that the present code also overwrites user-assigned ranges (result =
+a fresh imager's) is compared as correspondence only.  A landscaper fit on a diagram without a finite point (nothing to
+learn an end from) may raise anything or return; a fit that returns must agree with an unfitted landscaper with the same
+user-fixed parameters.  persim raising on valid input inside a law fails the law; any other exception in a law stream is a
+HarnessError (exit 2).
 
 Several theorems hold BY CONSTRUCTION of the model (`imager_transform_pure(_history)`, `landscaper_transform_pure`,
 `landscaper_fit_then_transform(_history)`: a `transform` call of the model returns the state it was given, and
 `lfitTransform` is defined as `lfit` then `ltransform`).  They say nothing about the code by themselves; they rest on
-the per-call comparison of the whole `__dict__` before/after every transform / repr / get_params call and of every
+the per-call comparison of the public and fitted attributes before/after every transform / repr / get_params call and of every
 fit_transform output with PersLandscapeApprox on the model's arguments (BY_CONSTRUCTION below, reported in the evidence).
 """
 import copy
@@ -40,6 +48,8 @@ ASSUMPTIONS = [
     "sklearn.base.clone(obj) = type(obj)(**obj.get_params()) and set_params(**p) = setattr per parameter (exercised on every run)",
     "sklearn TransformerMixin.fit_transform(X) = fit(X).transform(X) (compared on every fit_transform call of the landscaper)",
     "copy.deepcopy of the argument equals the argument (the imager's fit_transform works on a deep copy)",
+    "purity is judged on public attributes and on the fitted ones listed in FITTED (backing fields, mesh, user-fixed flags); other "
+    "private attributes are compared as correspondence only",
     "attributes compared exactly (landscaper start/stop are data values; imager histories of the correspondence stream are dyadic); "
     "outputs compared with np.array_equal against the image / landscape the model says they are",
 ]
@@ -52,7 +62,7 @@ CORE_THEOREMS = [
     "PersimVerif.C18.landscaper_fit_rejects",
 ]
 # … clauses that hold by construction of the model (`rfl` / list induction over a model whose transform returns its state);
-# they rest on the per-call __dict__ / output comparisons of this harness …
+# they rest on the per-call state (public + fitted attributes) / output comparisons of this harness …
 BY_CONSTRUCTION = [
     "PersimVerif.C18.imager_transform_pure", "PersimVerif.C18.imager_transform_pure_history",
     "PersimVerif.C18.imager_fit_then_transform_history", "PersimVerif.C18.landscaper_fit_then_transform",
@@ -100,6 +110,52 @@ def deep_eq(a, b):
 
 def snap_dict(obj):
     return {k: (v if callable(v) else copy.deepcopy(v)) for k, v in obj.__dict__.items()}
+
+
+# attributes that make up the fitted / user-fixed state although their names are private (the backing fields of the public
+# properties, the fitted mesh, the "fixed by the user" flags).  Purity ("transforming does not alter the fitted state") is
+# judged on these and on every public attribute; a NEW private attribute (a cache, a counter) is not a change of the fitted
+# state, and a change of some other private attribute is reported as a correspondence matter only - its effect, if any,
+# shows in the outputs, which are compared as well (repeatability, fit;transform == fit_transform).
+FITTED = {
+    "landscaper": {"_start", "_stop", "_start_fixed", "_stop_fixed"},
+    "imager": {"_birth_range", "_pers_range", "_pixel_size", "_width", "_height", "_resolution", "_bpnts", "_ppnts"},
+}
+
+
+def state_diff(before, after, kind):
+    """(changed, other): `changed` = public or fitted attributes of `before` that are missing or different in `after`;
+    `other` = private non-fitted attributes that changed, and attributes that are new in `after`"""
+    changed, other = [], []
+    for k in before:
+        if k not in after or not deep_eq(before[k], after[k]):
+            (changed if (not k.startswith("_") or k in FITTED[kind]) else other).append(k)
+    other += ["+" + k for k in after if k not in before]
+    return changed, other
+
+
+def purity(obj, before, before_pub, kind):
+    """(changed, other) of the object now against the snapshot (and the public view) taken before the call"""
+    changed, other = state_diff(before, snap_dict(obj), kind)
+    pub = l_public(obj) if kind == "landscaper" else i_public(obj)
+    if pub != before_pub and not changed:
+        changed.append("public view %r -> %r" % (before_pub, pub))
+    return changed, other
+
+
+class LawFailure(Exception):
+    """persim (or sklearn / copy acting on a persim object) raised on valid input inside a law: the law fails there"""
+
+
+def P(what, fn, *a, **k):
+    """a call into persim with valid arguments inside a law.  An exception here is a failure of the law; any OTHER exception
+    inside a law is the harness's own and ends the run with exit status 2"""
+    try:
+        return fn(*a, **k)
+    except common.HarnessError:
+        raise
+    except Exception as e:
+        raise LawFailure("%s raised %s (%s) on valid input" % (what, type(e).__name__, str(e)[:120]))
 
 
 def out_eq(a, b):
@@ -208,22 +264,25 @@ def l_run_real(case):
         recs.append({"pub": l_public(obj), "res": "ok"})
         for call in case["calls"]:
             before = snap_dict(obj) if call[0] in ("tr", "read") else None
+            before_pub = l_public(obj) if before is not None else None
             st, v, _ = common.call(l_apply, obj, call)
             if st == "err" and v == "HarnessError":
                 raise common.HarnessError("landscaper call %r broke the harness's own expectations" % (call[0],))
             if st != "err":
                 obj, v = v
-            impure = before is not None and not deep_eq(before, snap_dict(obj))
+            changed, other = purity(obj, before, before_pub, "landscaper") if before is not None else ([], [])
+            if other:       # new / private non-fitted attributes: not the fitted state (correspondence only)
+                recs[-1].setdefault("private_changes", "%s touched private attributes %r" % (
+                    "transform" if call[0] == "tr" else "repr/get_params", other))
             if call[0] == "read":
-                if impure:
-                    recs.append({"pub": l_public(obj), "res": "ok", "impure": "repr/get_params"})
+                if changed:
+                    recs.append({"pub": l_public(obj), "res": "ok", "impure": "repr/get_params changed %r" % (changed,)})
                     break
                 continue
             recs.append({"pub": l_public(obj), "res": ("err:" + v) if st == "err" else ("ok" if v is None else v)})
-            if impure:      # [T] purity of transform, on every transform call of every history
+            if changed:      # [T] purity of transform, on every transform call of every history
                 recs[-1]["impure"] = "transform changed the object: %r -> %r" % (
-                    {k: before[k] for k in before if not deep_eq(before[k], obj.__dict__.get(k))},
-                    {k: obj.__dict__.get(k) for k in before if not deep_eq(before[k], obj.__dict__.get(k))})
+                    {k: before.get(k) for k in changed}, {k: obj.__dict__.get(k) for k in changed})
                 break
     return recs
 
@@ -366,21 +425,35 @@ L_CORPUS = [
 
 def l_laws(ctx, case, X0=None):
     """[T] the laws on the real landscaper, from the state the history reaches, for fresh data X (or the recorded X0).
-    Returns (ok, text, X)"""
+    Returns (ok, text, X, notes): `ok` False = the statement fails on this input (`text` says how); `notes` lists
+    differences from the model in behaviour the statement leaves open (correspondence only).  An exception raised by
+    persim on valid input fails the law; any other exception propagates (the harness's own: exit status 2)."""
+    hold, notes = {"X": X0}, []
+    try:
+        ok, text = _l_laws(ctx, case, X0, hold, notes)
+    except LawFailure as e:
+        ok, text = False, str(e)
+    return ok, text, hold["X"], notes
+
+
+def _l_laws(ctx, case, X0, hold, notes):
     g = LGen(ctx)
     g.mode = ctx.rng.choice(["lattice", "half", "dyadic", "dec", "unif"])
     with np.errstate(all="ignore"):
-        obj = l_construct(case["ctor"])
+        obj = P("the constructor", l_construct, case["ctor"])
         for call in case["calls"]:
             res = common.call(l_apply, obj, call)
+            if res[0] == "err" and res[1] == "HarnessError":
+                raise common.HarnessError("landscaper call %r broke the harness's own expectations" % (call[0],))
             if res[0] == "ok":
                 obj = res[1][0]
         X = g.X(bad=0.0) if X0 is None else X0
+        hold["X"] = X
         law = case.get("law") if X0 is not None else None       # replay: the recorded choices of this function
         if law is not None:
-            obj.hom_deg = law["hom_deg"]
+            P("hom_deg assignment", setattr, obj, "hom_deg", law["hom_deg"])
         while len(X) <= obj.hom_deg or obj.hom_deg < 0:
-            obj.hom_deg = ctx.rng.randint(0, len(X) - 1)
+            P("hom_deg assignment", setattr, obj, "hom_deg", ctx.rng.randint(0, len(X) - 1))
         # what the user fixed: the last assignment of the history (constructor counts); clone and
         # set_params(**get_params()) are not assignments by the user
         user = {"start": case["ctor"].get("start"), "stop": case["ctor"].get("stop")}
@@ -397,52 +470,74 @@ def l_laws(ctx, case, X0=None):
         ctx.count("law_refit_on:" + how)
         if how == "clone":
             from sklearn.base import clone
-            obj = clone(obj)
+            obj = P("sklearn.base.clone", clone, obj)
         elif how == "spg":
-            obj.set_params(**obj.get_params())
+            P("set_params(**get_params())", lambda: obj.set_params(**obj.get_params()))
         elif how == "pipeline":
             from sklearn.base import clone
             from sklearn.pipeline import Pipeline
-            obj = clone(Pipeline([("landscaper", obj)])).named_steps["landscaper"]
-        o1, o2 = copy.deepcopy(obj), copy.deepcopy(obj)
+            obj = P("clone of a Pipeline", lambda: clone(Pipeline([("landscaper", obj)])).named_steps["landscaper"])
+        o1, o2 = P("copy.deepcopy", copy.deepcopy, obj), P("copy.deepcopy", copy.deepcopy, obj)
         # refit forgets: start/stop = the user's value, else min birth / max death over the points of this fit's
         # diagram that have finite coordinates
         d = arr(X[o1.hom_deg])
         d = d[np.all(np.isfinite(d), axis=1)]
-        before_fit = snap_dict(o1)
+        before_fit, before_fit_pub = snap_dict(o1), P("reading the public attributes", l_public, o1)
         rf = common.call(o1.fit, l_dgms(X))
         if len(d) == 0 and (user["start"] is None or user["stop"] is None):
-            if not (rf[0] == "err" and rf[1] == "ValueError"):
-                return False, "fit on a diagram without a finite point and without user-fixed start and stop: %s, expected ValueError" % (
-                    "returned" if rf[0] == "ok" else rf[1]), X
-            if not deep_eq(before_fit, snap_dict(o1)):
-                return False, "a fit that raised changed the object", X
-            return True, "", X
+            # nothing to learn an end from.  The statement does not say what happens then (the present code raises ValueError,
+            # incidentally, from min([])): any exception is fine; its class and an object left changed by the failed call are
+            # compared with the model as correspondence only.  A fit that RETURNS must still not depend on earlier fits:
+            # an unfitted landscaper with the same user-fixed parameters, given the same data, has to end in the same state.
+            if rf[0] == "err":
+                if rf[1] != "ValueError":
+                    notes.append("fit on a diagram without a finite point raised %s (model: ValueError)" % rf[1])
+                if any(purity(o1, before_fit, before_fit_pub, "landscaper")):
+                    notes.append("a fit that raised (diagram without a finite point) changed the object")
+                return True, ""
+            ref = P("the constructor", PL(), hom_deg=int(o1.hom_deg), start=user["start"], stop=user["stop"],
+                    num_steps=o1.num_steps, flatten=o1.flatten)
+            rr = common.call(ref.fit, l_dgms(X))
+            got = P("reading the public attributes", l_public, o1)
+            want = P("reading the public attributes", l_public, ref) if rr[0] == "ok" else "raises " + str(rr[1])
+            if got != want:
+                return False, ("after the history (refit on: %s), fit on a diagram without a finite point returned with (start, stop, ...) "
+                               "= %r, but an unfitted landscaper with the same user-fixed parameters %s: the result depends on "
+                               "earlier fits" % (how, got, want if isinstance(want, str) else "gives %r" % (want,)))
+            notes.append("fit on a diagram without a finite point returned (model: ValueError)")
+            return True, ""
         if rf[0] == "err":
-            return False, "fit raised %s on a diagram with %d finite point(s)" % (rf[1], len(d)), X
+            return False, "fit raised %s on a diagram with %d finite point(s)" % (rf[1], len(d))
         want = (user["start"] if user["start"] is not None else float(d[:, 0].min()),
                 user["stop"] if user["stop"] is not None else float(d[:, 1].max()))
         got = (None if o1.start is None else float(o1.start), None if o1.stop is None else float(o1.stop))
         if got != want:
             return False, "after the history (refit on: %s), fit(X) gives (start, stop) = %r; user-fixed values / finite data of this fit give %r" % (
-                how, got, want), X
+                how, got, want)
         # fit;transform == fit_transform
-        before = snap_dict(o1)
+        before, before_pub = snap_dict(o1), l_public(o1)
         r1 = common.call(o1.transform, l_dgms(X))
         r2 = common.call(o2.fit_transform, l_dgms(X))
-        if r1[0] != r2[0] or (r1[0] == "ok" and not out_eq(r1[1], r2[1])) or (r1[0] == "err" and r1[1] != r2[1]):
-            return False, "fit(X).transform(X) and fit_transform(X) differ", X
+        if r1[0] != r2[0] or (r1[0] == "ok" and not out_eq(r1[1], r2[1])):
+            return False, "fit(X).transform(X) and fit_transform(X) differ"
+        if r1[0] == "err" and r1[1] != r2[1]:
+            notes.append("fit(X).transform(X) raises %s, fit_transform(X) raises %s" % (r1[1], r2[1]))
         if l_public(o1) != l_public(o2):
-            return False, "public attributes after fit;transform %r and after fit_transform %r differ" % (l_public(o1), l_public(o2)), X
-        # transform is pure and repeatable
-        if not deep_eq(before, snap_dict(o1)):
-            return False, "transform changed the fitted state: %r -> %r" % (before, snap_dict(o1)), X
+            return False, "public attributes after fit;transform %r and after fit_transform %r differ" % (l_public(o1), l_public(o2))
+        # transform is pure and repeatable: public and fitted attributes unchanged, same output again
+        changed, other = purity(o1, before, before_pub, "landscaper")
+        if changed:
+            return False, "transform changed the fitted state: %r: %r -> %r" % (
+                changed, {k: before.get(k) for k in changed}, {k: o1.__dict__.get(k) for k in changed})
         r3 = common.call(o1.transform, l_dgms(X))
         if r1[0] != r3[0] or (r1[0] == "ok" and not out_eq(r1[1], r3[1])):
-            return False, "two transform calls on the same input differ", X
-        if not deep_eq(before, snap_dict(o1)):
-            return False, "the second transform changed the fitted state", X
-    return True, "", X
+            return False, "two transform calls on the same input differ"
+        changed, other2 = purity(o1, before, before_pub, "landscaper")
+        if changed:
+            return False, "the second transform changed the fitted state: %r" % (changed,)
+        if other or other2:
+            notes.append("transform touched private attributes %r (public and fitted attributes unchanged)" % (other or other2,))
+    return True, ""
 
 
 # ============================================================================= imager
@@ -526,18 +621,21 @@ def i_run_real(case):
         recs.append({"pub": i_public(obj), "out": None})
         for call in case["calls"]:
             before = snap_dict(obj) if call[0] in ("tr", "read") else None
+            before_pub = i_public(obj) if before is not None else None
             st, v, _ = common.call(i_apply, obj, call)
-            impure = before is not None and not deep_eq(before, snap_dict(obj))
-            if call[0] == "read" and not impure:
+            changed, other = purity(obj, before, before_pub, "imager") if before is not None else ([], [])
+            if other:       # new / private non-fitted attributes: not the fitted state (correspondence only)
+                recs[-1].setdefault("private_changes", "%s touched private attributes %r" % (
+                    "transform" if call[0] == "tr" else "reading attributes", other))
+            if call[0] == "read" and not changed:
                 continue
             if st == "err":
                 recs.append({"err": v})
                 break
             recs.append({"pub": i_public(obj), "out": v, "ref": copy.deepcopy(obj) if v is not None else None})
-            if impure:      # [T] purity of transform, on every transform call of every history
+            if changed:      # [T] purity of transform, on every transform call of every history
                 recs[-1]["impure"] = "%s changed the object (attributes %r)" % (
-                    "transform" if call[0] == "tr" else "reading attributes",
-                    [k for k in before if not deep_eq(before[k], obj.__dict__.get(k))])
+                    "transform" if call[0] == "tr" else "reading attributes", changed)
                 break
     return recs
 
@@ -698,69 +796,118 @@ def i_laws(ctx):
     skew = r.random() < 0.6                      # the flag travels with the data: the same value to fit, transform and fit_transform
     alias = r.random() < 0.25                    # the collection repeats one ndarray OBJECT (a diagram listed twice)
     case = {"ctor": {"pixel_size": ps, "kernel_params": kp}, "calls": hist, "X": coll, "skew": skew, "alias": alias}
+    ok, text, notes = i_law_body(case)
+    return ok, text, case, notes
+
+
+def i_law_body(case):
+    """every clause of the imager laws for one case ({ctor, calls, X, skew, alias}); used by the law stream AND by the
+    replay, so that a recorded failure of any clause replays.  Returns (ok, text, notes): `notes` = differences from the
+    model in behaviour the statement leaves open (correspondence only).  persim raising on valid input fails the law;
+    any other exception propagates (the harness's own)."""
+    notes = []
+    try:
+        ok, text = _i_law_body(case, notes)
+    except LawFailure as e:
+        ok, text = False, str(e)
+    return ok, text, notes
+
+
+def _i_law_body(case, notes):
+    coll, hist = case["X"], case["calls"]
+    skew, alias = bool(case.get("skew", True)), bool(case.get("alias", False))
+    kp = case["ctor"].get("kernel_params")
+    dc = lambda o: P("copy.deepcopy", copy.deepcopy, o)
     with np.errstate(all="ignore"):
-        obj = i_construct(case["ctor"])
+        obj = P("the constructor", i_construct, case["ctor"])
         for c in hist:
-            i_apply(obj, c)
+            P("history call %r" % (c[0],), i_apply, obj, c)
         X = [d for d in coll if d] if any(len(d) == 0 for d in coll) else coll
         fitX = [arr(d) for d in X]            # fit rejects empty members; transform accepts them
         trX = [arr(d) for d in coll]
         # the flag and the aliasing first, on copies of the object: fit(X, skew);transform(X, skew) == fit_transform(X, skew)
-        k1, k2 = copy.deepcopy(obj), copy.deepcopy(obj)
+        k1, k2 = dc(obj), dc(obj)
         kX = fitX + [fitX[0]] if alias else fitX
         kX0 = [np.array(a, copy=True) for a in kX]
-        k1.fit(kX, skew=skew)
-        ka = k1.transform(kX, skew=skew)
-        kb = k2.fit_transform(kX, skew=skew)
+        P("fit", k1.fit, kX, skew=skew)
+        ka = P("transform", k1.transform, kX, skew=skew)
+        kb = P("fit_transform", k2.fit_transform, kX, skew=skew)
         if not out_eq(ka, kb) or i_public(k1) != i_public(k2):
             return False, "fit(X, skew=%s);transform(X, skew=%s) and fit_transform(X, skew=%s) differ%s" % (
-                skew, skew, skew, " (X lists one array object twice)" if alias else ""), case
+                skew, skew, skew, " (X lists one array object twice)" if alias else "")
         if any(not np.array_equal(a, b) for a, b in zip(kX, kX0)):
-            return False, "fit / transform / fit_transform changed the caller's diagrams", case
-        o1, o2, o3 = copy.deepcopy(obj), copy.deepcopy(obj), copy.deepcopy(obj)
+            return False, "fit / transform / fit_transform changed the caller's diagrams"
+        o1, o2 = dc(obj), dc(obj)
         # fit;transform == fit_transform (same data to both)
-        o1.fit(fitX)
-        out1 = o1.transform(fitX)
-        out2 = o2.fit_transform(fitX)
+        P("fit", o1.fit, fitX)
+        out1 = P("transform", o1.transform, fitX)
+        out2 = P("fit_transform", o2.fit_transform, fitX)
         if not out_eq(out1, out2):
-            return False, "fit(X);transform(X) and fit_transform(X) differ", case
-        if i_public(o1) != i_public(o2) or not deep_eq(snap_dict(o1), snap_dict(o2)):
-            return False, "state after fit;transform %r and after fit_transform %r differ" % (i_public(o1), i_public(o2)), case
-        # refit forgets: a fresh object with the same pixel size learns the same geometry
-        fresh = PI()(pixel_size=float(obj.pixel_size), **({"kernel_params": kp} if kp is not None else {}))
-        fresh.fit(fitX)
-        if i_public(fresh) != i_public(o1) or not np.array_equal(fresh._bpnts, o1._bpnts) or not np.array_equal(fresh._ppnts, o1._ppnts):
-            return False, "after a history, fit(X) gives %r; a fresh imager of the same pixel size gives %r" % (i_public(o1), i_public(fresh)), case
+            return False, "fit(X);transform(X) and fit_transform(X) differ"
+        changed, other = state_diff(snap_dict(o1), snap_dict(o2), "imager")
+        if i_public(o1) != i_public(o2) or changed:
+            return False, "state after fit;transform %r and after fit_transform %r differ%s" % (
+                i_public(o1), i_public(o2), " (attributes %r)" % (changed,) if changed else "")
+        if other:
+            notes.append("private attributes %r differ after fit;transform and after fit_transform (public and fitted ones agree)" % (other,))
+        # refit forgets.  The statement: what a fit learns depends only on the data of THIS fit and on parameters the user
+        # fixed explicitly, never on earlier fits.  Literally: the same history WITHOUT its fit calls (the same user
+        # assignments in the same order), followed by fit(X), must end in the same public state and give the same images.
+        ref = P("the constructor", i_construct, case["ctor"])
+        for c in hist:
+            if c[0] != "fit":
+                P("history call %r" % (c[0],), i_apply, ref, c)
+        P("fit", ref.fit, fitX)
+        if i_public(ref) != i_public(o1):
+            return False, ("after a history with earlier fits, fit(X) gives %r; the same user assignments without the earlier "
+                           "fits give %r" % (i_public(o1), i_public(ref)))
+        if not out_eq(P("transform", ref.transform, fitX), out1):
+            return False, "after a history with earlier fits, fit(X);transform(X) differs from the same user assignments without the earlier fits"
+        # the present code (and the model) forgets MORE: ranges the user assigned are overwritten by fit as well, so the
+        # result equals that of a fresh imager of the same pixel size.  The statement allows a fit to keep "parameters the
+        # user fixed explicitly": a difference here is a correspondence matter.
+        fresh = P("the constructor", PI(), pixel_size=float(obj.pixel_size), **({"kernel_params": kp} if kp is not None else {}))
+        P("fit", fresh.fit, fitX)
+        if i_public(fresh) != i_public(o1):
+            notes.append("after user-assigned ranges, fit(X) gives %r; a fresh imager of the same pixel size gives %r (the model "
+                         "overwrites user-assigned ranges)" % (i_public(o1), i_public(fresh)))
+        elif not all(hasattr(o, a) for o in (fresh, o1) for a in ("_bpnts", "_ppnts")) or \
+                not np.array_equal(fresh._bpnts, o1._bpnts) or not np.array_equal(fresh._ppnts, o1._ppnts):
+            notes.append("private mesh (_bpnts/_ppnts) after a history differs from a fresh imager's although the public geometry agrees")
         # single diagram: fit;transform == fit_transform as well
-        s1 = copy.deepcopy(obj); s2 = copy.deepcopy(obj)
-        s1.fit(fitX[0]); a = s1.transform(fitX[0]); b = s2.fit_transform(fitX[0])
+        s1, s2 = dc(obj), dc(obj)
+        P("fit", s1.fit, fitX[0]); a = P("transform", s1.transform, fitX[0]); b = P("fit_transform", s2.fit_transform, fitX[0])
         if isinstance(a, list) or isinstance(b, list) or not out_eq(a, b):
-            return False, "single diagram: fit;transform and fit_transform differ", case
-        # transform: pure, repeatable, element-wise in order
-        before = snap_dict(o1)
-        t1 = o1.transform(trX)
-        if not deep_eq(before, snap_dict(o1)):
-            return False, "transform changed the fitted state", case
-        t2 = o1.transform(trX)
+            return False, "single diagram: fit;transform and fit_transform differ"
+        # transform: pure (public and fitted attributes), repeatable, element-wise in order
+        before, before_pub = snap_dict(o1), i_public(o1)
+        t1 = P("transform", o1.transform, trX)
+        changed, other = purity(o1, before, before_pub, "imager")
+        if changed:
+            return False, "transform changed the fitted state (attributes %r)" % (changed,)
+        t2 = P("transform", o1.transform, trX)
         if not out_eq(t1, t2):
-            return False, "two transform calls on the same collection differ", case
+            return False, "two transform calls on the same collection differ"
         if not isinstance(t1, list) or len(t1) != len(trX):
-            return False, "transform of a collection of %d diagrams is not a list of %d images" % (len(trX), len(trX)), case
+            return False, "transform of a collection of %d diagrams is not a list of %d images" % (len(trX), len(trX))
         res = tuple(o1.resolution)
         for j, d in enumerate(trX):
-            one = o1.transform(d)
+            one = P("transform", o1.transform, d)
             if not isinstance(one, np.ndarray) or one.shape != res:
-                return False, "transform of one diagram is not a bare image of the resolution", case
+                return False, "transform of one diagram is not a bare image of the resolution"
             if len(d) == 0 and one.any():
-                return False, "image of an empty diagram is not zero", case
+                return False, "image of an empty diagram is not zero"
             if not np.array_equal(one, t1[j]):
-                return False, "image %d of the collection is not the image of diagram %d" % (j, j), case
-        z = o1.transform([])
+                return False, "image %d of the collection is not the image of diagram %d" % (j, j)
+        z = P("transform", o1.transform, [])
         if not isinstance(z, np.ndarray) or z.shape != res or z.any():
-            return False, "transform([]) is not zeros of the resolution", case
-        if not deep_eq(before, snap_dict(o1)):
-            return False, "transform changed the fitted state", case
-    return True, "", case
+            return False, "transform([]) is not zeros of the resolution"
+        changed, other2 = purity(o1, before, before_pub, "imager")
+        if changed:
+            return False, "transform changed the fitted state (attributes %r)" % (changed,)
+        if other or other2:
+            notes.append("transform touched private attributes %r (public and fitted attributes unchanged)" % (other or other2,))
+    return True, ""
 
 
 # ============================================================================= run
@@ -805,9 +952,30 @@ def report_impure(ctx, which, cases, recs_all):
             ctx.violation("%s: %s" % ("PersistenceLandscaper" if which == "landscaper" else "PersistenceImager", bad),
                           {"transformer": which, "history": case, "impure": True}, found_input=True,
                           reproducer=l_reproducer(case) if which == "landscaper" else None)
-            if len(ctx.violations) >= MAXV:
+            if claimed(ctx) >= MAXV:
                 return True
+    for case, recs in zip(cases, recs_all):
+        notes = [r["private_changes"] for r in recs if r.get("private_changes")]
+        if notes:
+            ctx.count(which + "_private_attribute_changes")
+            corr_report(ctx, which + ": private attributes", "%s: %s (public and fitted attributes unchanged: not a change of the "
+                        "fitted state)" % (which, notes[0]), {"transformer": which, "history": case})
     return False
+
+
+def claimed(ctx):
+    """violations with a claimed failing input (correspondence-only reports do not end the search)"""
+    return sum(1 for _, found in ctx.violations if found)
+
+
+def corr_report(ctx, key, what, case):
+    """a difference in behaviour the statement leaves open: one report per kind, no claimed failing input"""
+    ctx.count("correspondence_only:" + key)
+    seen = ctx.__dict__.setdefault("_c18_corr_seen", set())
+    if key in seen:
+        return
+    seen.add(key)
+    ctx.violation(what, case, found_input=False, correspondence=key)
 
 
 def _run(ctx):
@@ -875,28 +1043,39 @@ def _run(ctx):
     law_cases = list(lcases[:len(L_CORPUS)]) + [c for c, _ in ldis[:20]]
     for _ in range(ctx.n(1500, 20000)):
         law_cases.append(LGen(ctx).history())
+    # persim raising on valid input inside a law fails the law (LawFailure, handled in l_laws / i_law_body); any other
+    # exception in a law stream is the harness's own failure, never a violation
     for case in law_cases:
-        res = common.call(l_laws, ctx, case)
-        if res[0] == "err":
-            ok, text, X = False, "a law raised %s on valid input" % res[1], None
-        else:
-            ok, text, X = res[1]
+        try:
+            ok, text, X, notes = l_laws(ctx, case)
+        except common.HarnessError:
+            raise
+        except Exception as e:
+            raise common.HarnessError("landscaper law stream raised %s: %s" % (type(e).__name__, e)) from e
         ctx.test("landscaper_laws", ok)
         if not ok:
             ctx.violation("PersistenceLandscaper: " + str(text), {"transformer": "landscaper", "history": case, "X": X},
                           found_input=True, reproducer=l_reproducer(case))
-            if len(ctx.violations) >= MAXV:
+            if claimed(ctx) >= MAXV:
                 return
+        for note in notes:
+            corr_report(ctx, "landscaper: " + " ".join(note.split()[:4]), "PersistenceLandscaper (the statement holds on this input): " + note,
+                        {"transformer": "landscaper", "history": case, "X": X})
     for _ in range(ctx.n(800, 10000)):
-        res = common.call(i_laws, ctx)
-        if res[0] == "err":
-            raise common.HarnessError("imager law stream raised %s" % res[1])
-        ok, text, case = res[1]
+        try:
+            ok, text, case, notes = i_laws(ctx)
+        except common.HarnessError:
+            raise
+        except Exception as e:
+            raise common.HarnessError("imager law stream raised %s: %s" % (type(e).__name__, e)) from e
         ctx.test("imager_laws", ok)
         if not ok:
             ctx.violation("PersistenceImager: " + text, {"transformer": "imager", "law_case": case}, found_input=True)
-            if len(ctx.violations) >= MAXV:
+            if claimed(ctx) >= MAXV:
                 return
+        for note in notes:
+            corr_report(ctx, "imager: " + " ".join(note.split()[:4]), "PersistenceImager (the statement holds on this input): " + note,
+                        {"transformer": "imager", "law_case": case})
     found = any(f for _, f in ctx.violations)
     for case, (k, text) in ldis[:2]:
         cut = {"ctor": case["ctor"], "calls": [c for c in case["calls"] if c[0] != "read"][:k]}
@@ -940,7 +1119,9 @@ def replay(ctx, rep):
         if recs and recs[-1].get("impure"):
             print("law fails:", recs[-1]["impure"])
             return False
-        ok, text, _ = l_laws(ctx, case, c.get("X"))
+        ok, text, _, notes = l_laws(ctx, case, c.get("X"))
+        for note in notes:
+            print("left open by the statement (correspondence only):", note)
         if not ok:
             print("law fails:", text)
             return False
@@ -953,53 +1134,21 @@ def replay(ctx, rep):
         return True
     if "law_case" in c:
         case = c["law_case"]
-        # re-run the law stream's checks on exactly this case
-        saved = ctx.rng.getstate()
-        ok, text = i_law_replay(case)
-        ctx.rng.setstate(saved)
+        # re-run every clause of the law stream on exactly this case (the same function the stream uses)
+        ok, text, notes = i_law_body(case)
+        for note in notes:
+            print("left open by the statement (correspondence only):", note)
         if not ok:
             print("law fails:", text)
         return ok
+    if "history" not in c:
+        print("correspondence-only replay (no failing input was found): re-run `./check.py C18` with VERIF_SEED=%s" % rep.get("seed"))
+        return True
     case = c["history"]
     recs = i_run_real(case)
     for k, r in enumerate(recs):
-        print("call %d:" % k, r.get("pub", r.get("err")), r.get("impure", ""))
+        print("call %d:" % k, r.get("pub", r.get("err")), r.get("impure", ""), r.get("private_changes", ""))
     return not (recs and recs[-1].get("impure"))
-
-
-def i_law_replay(case):
-    """the order / purity / fit_transform laws for one recorded imager case"""
-    with np.errstate(all="ignore"):
-        obj = i_construct(case["ctor"])
-        for c in case["calls"]:
-            i_apply(obj, c)
-        coll = case["X"]
-        fitX = [arr(d) for d in coll if d]
-        trX = [arr(d) for d in coll]
-        if "skew" in case:
-            k1, k2 = copy.deepcopy(obj), copy.deepcopy(obj)
-            kX = fitX + [fitX[0]] if case.get("alias") else fitX
-            k1.fit(kX, skew=case["skew"])
-            if not out_eq(k1.transform(kX, skew=case["skew"]), k2.fit_transform(kX, skew=case["skew"])) or i_public(k1) != i_public(k2):
-                return False, "fit(X, skew);transform(X, skew) != fit_transform(X, skew) for skew=%s" % case["skew"]
-        o1, o2 = copy.deepcopy(obj), copy.deepcopy(obj)
-        o1.fit(fitX)
-        if not out_eq(o1.transform(fitX), o2.fit_transform(fitX)) or i_public(o1) != i_public(o2):
-            return False, "fit;transform != fit_transform"
-        fresh = PI()(pixel_size=float(obj.pixel_size), **({"kernel_params": case["ctor"]["kernel_params"]} if case["ctor"].get("kernel_params") else {}))
-        fresh.fit(fitX)
-        if i_public(fresh) != i_public(o1):
-            return False, "refit does not forget: %r vs fresh %r" % (i_public(o1), i_public(fresh))
-        before = snap_dict(o1)
-        t1 = o1.transform(trX)
-        if not deep_eq(before, snap_dict(o1)):
-            return False, "transform changed the state"
-        if not out_eq(t1, o1.transform(trX)):
-            return False, "transform not repeatable"
-        for j, d in enumerate(trX):
-            if not np.array_equal(o1.transform(d), t1[j]):
-                return False, "image %d of the collection is not the image of diagram %d" % (j, j)
-    return True, ""
 
 
 MANIFEST = {
@@ -1013,7 +1162,7 @@ MANIFEST = {
             "last assignment if any, else min birth / max death over the points of this fit's diagram with finite coordinates; a clone is "
             "the unfitted object with the user's parameters; fit rejects exactly an out-of-range degree and a diagram without a finite "
             "point when an end is not user-fixed. By construction of the model (rfl / list induction; they rest on the per-call "
-            "comparison of the whole __dict__ and of the outputs on every run): transform returns the state unchanged and is repeatable, "
+            "comparison of the public and fitted attributes (a new private attribute is not a change of state) and of the outputs on every run): transform returns the state unchanged and is repeatable, "
             "transforms can be deleted from any history, the landscaper's fit_transform = fit then transform. The pre-9596bd3 fit, the "
             "pre-4d8db3a get_params (clone / set_params round trip freeze learned values) and the pre-b209c93 fit (stop = inf) are "
             "refuted by decided counterexamples. The models are tied to the code on every run by random call sequences with public "
@@ -1023,7 +1172,12 @@ MANIFEST = {
             "per-diagram image and PersLandscapeApprox are abstract parameters of the model (their content is C04/C11 and C08); "
             "np.isfinite is a predicate parameter. The driver computes every state with irun/lrun (the functions of the theorems) on the "
             "prefixes of a history. The laws are additionally evaluated on the real code with arbitrary floats as [T] tests, the refit "
-            "law also on a clone, on the clone of a Pipeline holding the object and after set_params(**get_params()).",
+            "law also on a clone, on the clone of a Pipeline holding the object and after set_params(**get_params()). Compared with the "
+            "model but never claimed as a failing input (the statement leaves them open): the exception class and the object's state "
+            "after a landscaper fit on a diagram without a finite point (or its returning, provided the result does not depend on earlier "
+            "fits), new or non-fitted private attributes touched by transform, and the imager's fit overwriting ranges the user assigned "
+            "(the statement lets a fit keep what the user fixed; what must not matter is an EARLIER FIT, checked against the same "
+            "assignments without the earlier fits).",
     "technique": "Lean 4 theorems over state-machine models + differential correspondence on call sequences + metamorphic tests",
 }
 MANIFEST["note"] += " " + py2lean.manifest_note("landscaper") + " " + py2lean.manifest_note("imager")
